@@ -71,7 +71,20 @@ def run_(tier):
                       "chan": rnd.choice(["none", "unbuf", "buf"]), "profile": p, "data": d,
                       "pclass": pc, "dclass": dc if dc != "ok" else "unknown"})
     obs = proto.run_cases("c17", cases)
-    lines, byid = proto.to_trace(obs)
+    # the first call a process ever makes (no warm-up history): one process per case
+    first = []
+    pool = [(corpus.OK_PROFILE, d, "ok") for d in corpus.NO_NODES_DOCS + ["", " ", "[", "null", "0"]] + \
+           [(p_, corpus.OK_DOCS[0], "unknown") for p_ in ("", "\n", "#", "a: [b", corpus.GEN_ERROR_PROFILES[0], corpus.NON_OBJECT_RESULT_PROFILES[0])]
+    extra = [x for x in inputs[len(pool):]]
+    rnd.shuffle(extra)
+    for j, (p, d, pc) in enumerate(pool + extra[: (6 if tier == "quick" else 60)]):
+        dc = "okNoNodes" if d in corpus.NO_NODES_DOCS else "unknown"
+        first.append({"id": "c17-first-%03d" % j, "entry": ENTRIES[j % len(ENTRIES)], "chan": ["none", "unbuf", "buf"][j % 3],
+                      "profile": p, "data": d, "pclass": pc, "dclass": dc, "debug": False})
+    for k in range(0, len(first), 24):
+        obs += vlib.run_harness("proto", first[k:k + 24], "c17_first", shards=24, env={"ACVH_NO_WARMUP": "1"})
+    cases += first
+    lines, byid = proto.to_trace(obs, "C17")
     rejected, tr = proto.validate_trace("c17", lines, timeout=3000)
     bycase = {c["id"]: c for c in cases}
     for rid in sorted(rejected):
